@@ -390,6 +390,19 @@ def run_sim_case(doc, P):
     from quantum_gates._simulation import circuit as cm
     n = doc["n"]
     qc = QuantumCircuit(n, n, name="circ")
+    dev = {"T1": np.arange(1, n + 1) * 1e-4, "T2": np.arange(1, n + 1) * 0.8e-4, "p": np.arange(1, n + 1) * 1e-3,
+           "rout": np.arange(1, n + 1) * 1e-2, "p_int": np.full((n, n), 2e-2), "t_int": np.full((n, n), 3e-7) + np.arange(n)[:, None] * 1e-8,
+           "tm": np.arange(1, n + 1) * 1e-6, "dt": np.array([2.2e-10])}
+    psi0 = np.zeros(2 ** n); psi0[0] = 1
+    gates = mk_gateset(doc["gates"], P)
+    sim = MrAndersonSimulator(gates=gates, CircuitClass=getattr(cm, doc["class"]), parallel=False)
+    # history: the simulator object runs this very circuit OBJECT while it is still short (one pulse per qubit, measured), then the
+    # object is extended in place (a depth sweep): later runs are functions of the circuit's content at call time
+    for q in range(n):
+        qc.sx(q)
+    for q in range(n):
+        qc.measure(q, q)
+    np.random.seed(doc["seed"] ^ 0x3C3C); sim.run(t_qiskit_circ=qc, qubits_layout=list(range(n)), psi0=psi0, shots=1, device_param=dev, nqubit=n)
     for ins in doc["prog"]:
         if ins[0] == "rz":
             qc.rz(ins[1], ins[2])
@@ -399,16 +412,6 @@ def run_sim_case(doc, P):
             getattr(qc, ins[0])(ins[1], ins[2])
         elif ins[0] == "delay":
             qc.delay(ins[1], ins[2])
-    for q in range(n):
-        qc.sx(q)
-    for q in range(n):
-        qc.measure(q, q)
-    dev = {"T1": np.arange(1, n + 1) * 1e-4, "T2": np.arange(1, n + 1) * 0.8e-4, "p": np.arange(1, n + 1) * 1e-3,
-           "rout": np.arange(1, n + 1) * 1e-2, "p_int": np.full((n, n), 2e-2), "t_int": np.full((n, n), 3e-7) + np.arange(n)[:, None] * 1e-8,
-           "tm": np.arange(1, n + 1) * 1e-6, "dt": np.array([2.2e-10])}
-    psi0 = np.zeros(2 ** n); psi0[0] = 1
-    gates = mk_gateset(doc["gates"], P)
-    sim = MrAndersonSimulator(gates=gates, CircuitClass=getattr(cm, doc["class"]), parallel=False)
     kw = dict(t_qiskit_circ=qc, qubits_layout=list(range(n)), psi0=psi0, shots=doc["shots"], device_param=dev, nqubit=n)
     hexd = lambda r: [(k, float(v).hex()) for k, v in r.items()]
     np.random.seed(doc["seed"]); r1 = hexd(sim.run(**kw))
